@@ -62,4 +62,8 @@ PROP_ASSUMPTIONS = {
         "harness/src/gramspec.rs + lexspec.rs are the reference parser (graphql-js is not available offline); they are our transcription of the October-2021 grammar",
         "parser model as in C01",
     ],
+    "C11": [
+        "Model/LineColumn.lean hand-written from SourceFile::get_line_column; bytes modelled as characters with utf8Size prefix sums",
+        "ast/from_cst.rs location attachment is not modelled; checked on the implementation",
+    ],
 }
